@@ -392,6 +392,10 @@ class Gen:
         if g[0] == "r":
             theta = self.r.choice(ANGLES)
             tform = self.r.choice(["lit", "lit", "var", "expr", "neg"])
+            if self.r.random() < 0.12:
+                # a computed angle that no float32 holds: the product of two float literals is a double
+                a, b = f32(self.r.choice([123.456, 10.3, 2.7, 57.29])), f32(self.r.choice([21.0, 7.7, 3.3, -11.9]))
+                return dict(k="gate", g=g, qs=qs, theta=a * b, tprod=(a, b), tform="prod", via="direct")
         vias = ["direct", "direct", "func"]
         if g == "h":
             vias += ["qfunc", "method", "nested"]
@@ -613,6 +617,9 @@ class Renderer:
             return "tv" if False else fmt_float(th)
         if form == "expr":
             return "%s * 2.0f" % fmt_float(th / 2.0)
+        if form == "prod":
+            a, b = s["tprod"]
+            return "%s * %s" % (fmt_float(a), "(%s)" % fmt_float(b) if b < 0 else fmt_float(b))
         if form == "neg":
             return "-(%s)" % fmt_float(-th) if th != 0 else "0.0f"
         return fmt_float(th)
@@ -1364,6 +1371,8 @@ class Model:
             th = None
             if s["theta"] is not None:
                 th = f32(s["theta"])
+                if s.get("tprod"):
+                    th = s["tprod"][0] * s["tprod"][1]     # evaluated in double, not narrowed
             self.expect_sim(g, ix[0], -1, th)
             self.state.gate(g, ix[0], th or 0.0)
             self.check_state("%s q%d" % (g, ix[0]))
